@@ -207,6 +207,43 @@ extern "C" void harness_scopes_after_rejected_binder()  /* vf: bounds=rejected_b
     vf_assert(level_of(sym) == want, "binds-to-innermost-preceding-declaration");
 }
 
+// type names follow the same rule: a typedef in an inner scope may reuse the name of an outer one, and a declaration that uses the name gets the
+// innermost preceding typedef
+extern "C" void harness_type_names()  /* vf: bounds=type_name_declared_at_any_subset_of_4_levels(global,template,function,block)_with_distinguishable_ranges_x_3_use_sites(template_declarations,function_body,nested_block);at_least_the_global_one_present reach=end */
+{
+    enum { TG, TT, TF, TB };
+    bool has[4]; has[TG] = true;
+    has[TT] = vf_pick("!typedef_in_template", 2); has[TF] = vf_pick("!typedef_in_function", 2); has[TB] = vf_pick("!typedef_in_block", 2);
+    int use = vf_pick("!use", 3);   // 0 template-level variable, 1 variable in the function body, 2 variable in the nested block
+    auto td = [&](int l) { return "typedef int[0," + std::to_string(20 + l) + "] idx_t;"; };
+    std::string s = td(TG) + "\n idx_t g0 = 0;\nprocess P() {\n";
+    if (has[TT]) s += " " + td(TT) + "\n";
+    s += " idx_t u0 = 0;\n int f() {\n";
+    if (has[TF]) s += "  " + td(TF) + "\n";
+    s += "  idx_t u1 = 0;\n  {\n";
+    if (has[TB]) s += "   " + td(TB) + "\n";
+    s += "   idx_t u2 = 0;\n  }\n  return 0;\n }\n state A; init A;\n}\nsystem P;\n";
+    Model m;
+    bool ok = m.load(s);
+    vf_note(s.c_str()); if (!ok) note_errors(m.doc);
+    vf_reach("end");
+    vf_assert(ok, "model-with-shadowing-type-names-accepted");
+    if (!ok) return;
+    template_t& t = m.doc.get_templates().front();
+    variable_t* v = use == 0 ? var_named(t.variables, "u0") : var_named(t.functions.front().variables, use == 1 ? "u1" : "u2");
+    vf_assert(v != nullptr, "use-site-found");
+    if (!v) return;
+    int want = TG;
+    if (has[TT]) want = TT;
+    if (use >= 1 && has[TF]) want = TF;
+    if (use == 2 && has[TB]) want = TB;
+    int got = level_of(v->uid) - 10;   // level_of subtracts 10 from the upper bound
+    vf_notei("expected_level", want); vf_notei("bound_level", got);
+    vf_assert(got == want, "declaration-uses-the-innermost-preceding-typedef");
+    auto* g0 = var_named(m.doc.get_globals().variables, "g0");
+    vf_assert(g0 && level_of(g0->uid) - 10 == TG, "global-declaration-uses-the-global-typedef");
+}
+
 // process-qualified names in queries: P.x binds to the declaration x of P's template with P's arguments substituted
 extern "C" void harness_process_qualified()  /* vf: bounds=query_use_sites_with/without_process_qualification;member_declared_in_template/global/both;two_processes_with_different_arguments;member_type_depends_on_two_parameters_bound_along_3_routes(direct,partial_instantiation,chain_of_two) */
 {
